@@ -89,6 +89,13 @@ def _all(tier):
     pipe("gauss", ("square",), ("integrate", [0]))
     pipe("gauss", ("square",), ("integrate", None))
     pipe("cat3", ("evidence", {"1": 2}), ("integrate", [0]))
+    # integrals of products of two DIFFERENT circuits (the fused reduce-sum / outer-product rewrite is
+    # symmetric for squares)
+    pipe("emb3", ("multiply_other",), ("integrate", None))
+    pipe("emb3", ("multiply_other",), ("integrate", [0, 2]))
+    pipe("kron3", ("multiply_other",), ("integrate", [1]))
+    pipe("qg", ("multiply_other",), ("integrate", None))
+    pipe("cat3", ("multiply_other",), ("integrate", None))
     return out
 
 
@@ -98,8 +105,10 @@ def cases(tier, seed):
     sems = ["sum-product", "lse-sum", "complex-lse-sum"]
     out = []
     if tier == "quick":
+        core = [c for c in allc if c["circuit"]["ops"][0][0] == "multiply_other"]
+        allc = [c for c in allc if c not in core]
         rnd.shuffle(allc)
-        for i, c in enumerate(allc[:30]):
+        for i, c in enumerate(core + allc[:26]):
             d = dict(c)
             d["semiring"] = sems[(i + seed) % 3]
             out.append(d)
